@@ -197,18 +197,14 @@ Fixpoint line_col_scan (s : bytes) (i : nat) (pos : nat)
     if (negb in_line && Nat.leb i pos)%bool then (rev cur, line, (Z.of_nat i - Z.of_nat line_start)%Z)
     else (rev cur, line, col)
   | c :: s' =>
+    (* the position test comes first: a newline byte belongs to the line it ends *)
+    let hit := Nat.eqb i pos in
+    let in_line' := (in_line || hit)%bool in
+    let col' := if hit then (Z.of_nat i - Z.of_nat line_start)%Z else col in
     if N.eqb c 10 then
-      if in_line then (rev cur, line, col)
-      else
-        let line' := S line in
-        let ls' := S i in
-        if Nat.eqb i pos
-        then line_col_scan s' (S i) pos line' (Z.of_nat i - Z.of_nat ls') ls' true []
-        else line_col_scan s' (S i) pos line' col ls' false []
-    else
-      if Nat.eqb i pos
-      then line_col_scan s' (S i) pos line (Z.of_nat i - Z.of_nat line_start) line_start true (c :: cur)
-      else line_col_scan s' (S i) pos line col line_start in_line (c :: cur)
+      if in_line' then (rev cur, line, col')
+      else line_col_scan s' (S i) pos (S line) col' (S i) false []
+    else line_col_scan s' (S i) pos line col' line_start in_line' (c :: cur)
   end.
 
 Definition get_line_col (src : bytes) (pos : nat) : bytes * nat * Z :=
